@@ -1,5 +1,5 @@
 """C05 — the lock-free bucket never loses, duplicates or invents a sample."""
-from facts import Sym, path_is, strip_generics, strip_sym, sym_arg, sym_calls, sym_is_call, sym_str, sym_through, sym_walk
+from facts import Sym, alternatives, path_is, strip_generics, strip_sym, sym_arg, sym_calls, sym_is_call, sym_str, sym_through, sym_walk
 from props.common import arg_syms, atomic_ops, bool_switches, calls_to, crate_stats, gates, in_cycle, need, nonforeign_calls, one_method, orderings_in, recorder_forward
 
 KEEP = [  # private helpers the rules name (kept as functions); every other non-exported, non-trait function is spliced into its callers
@@ -232,7 +232,12 @@ def run(ctx):
             rets = []
             for i, k, st in b.stmts():
                 if st["k"] == "assign" and st["p"]["l"] == 0 and not st["p"].get("pr"):
-                    rets.append((i, strip_sym(sy.rvalue(st["rv"], 0, frozenset()))))
+                    if st["rv"]["k"] == "use":
+                        # the returned value may be a local assigned on several paths (a helper with an early `return false`, spliced in)
+                        for alt in alternatives(g_, st["rv"]["a"], i, sy):
+                            rets.append((alt[0], strip_sym(alt[1])))
+                    else:
+                        rets.append((i, strip_sym(sy.rvalue(st["rv"], 0, frozenset()))))
             for i, v in rets:
                 for first, second in (("Block<T>::len", "Block<T>::next_len"), ("Block<T>::next_len", "Block<T>::len")):
                     def nonzero_test(v_, callee):
